@@ -257,6 +257,7 @@ class ModuleConst(object):
         return '<Const %s>' % self.key
 
 
+STAR_EXPORTS = {'decimal': ('Decimal', 'getcontext', 'ROUND_HALF_UP', 'Context'), 'math': tuple(n for n in dir(__import__('math')) if not n.startswith('_'))}
 BUILTINS = set(dir(__builtins__)) if not isinstance(__builtins__, dict) else set(__builtins__)
 
 
@@ -360,10 +361,11 @@ class Repo(object):
                 r = self.resolve_global(self.modules[mod], name, _depth + 1)
                 if r is not None:
                     return r
-            else:
-                pass
         if name in BUILTINS:
             return Ext('builtins.' + name)
+        for mod in module.star_imports:
+            if mod not in self.modules and name in STAR_EXPORTS.get(mod, ()):
+                return Ext(mod + '.' + name)
         return None
 
     def resolve_expr(self, func_or_module, expr, local_names=()):
